@@ -9,7 +9,7 @@ HERE = os.path.dirname(os.path.abspath(__file__))
 M = [
  ("c01_plan_arith", "C01", "sigpyproc/readers.py", "nreads, lastread = divmod(nsamps - skipback, (gulp - skipback))\n        if lastread != 0:\n            lastread += skipback\n        blocks = [\n            (ii, gulp * self.header.nchans", "nreads, lastread = divmod(nsamps, (gulp - skipback))\n        blocks = [\n            (ii, gulp * self.header.nchans", "FilReader.read_plan ignores the overlap when counting reads"),
  ("c01_seek_subbyte", "C01", "sigpyproc/readers.py", "self._file.seek(int(skip * self.chan_stride), whence=1)", "self._file.seek(int(skip) * int(self.chan_stride), whence=1)", "skip-back seek truncates the channel stride: no rewind at 1/2/4 bits"),
- ("c02_boundary", "C02", "sigpyproc/io/fileio.py", "fileid = np.where(offset < self.sinfo.cumsum_datalens)[0][0]", "fileid = np.where(offset <= self.sinfo.cumsum_datalens)[0][0]", "seek to an offset exactly at a file boundary lands in the previous file"),
+ ("c02_hdrlen0", "C02", "sigpyproc/io/fileio.py", "        self._open(ifile)\n        self.file_obj.seek(self.sinfo.entries[ifile].hdrlen)", "        self._open(ifile)\n        self.file_obj.seek(self.sinfo.entries[0].hdrlen)", "every file of a set is assumed to have the first file's header length"),
  ("c03_unpack2_little", "C03", "sigpyproc/core/kernels.py", "        unpacked[pos + 1] = (array[ii] & 0x0C) >> 2\n        unpacked[pos + 2] = (array[ii] & 0x30) >> 4\n        unpacked[pos + 3] = (array[ii] & 0xC0) >> 6", "        unpacked[pos + 2] = (array[ii] & 0x0C) >> 2\n        unpacked[pos + 1] = (array[ii] & 0x30) >> 4\n        unpacked[pos + 3] = (array[ii] & 0xC0) >> 6", "two fields swapped in the 2-bit little-endian unpacker"),
  ("c04_no_cast", "C04", "sigpyproc/io/fileio.py", "        arr = np.ascontiguousarray(arr, dtype=self.bitsinfo.dtype)\n", "", "cwrite writes the array at its own width"),
  ("c05_dec_sign", "C05", "sigpyproc/io/sigproc.py", '{sign}{int(de)} {int(ami)} {ase}"', '{int(de) if sign == "" else -int(de)} {int(ami)} {ase}"', "declination sign lost between 0 and -1 degree"),
